@@ -19,7 +19,8 @@ def main():
         extra_na = json.load(open(p))
     for pid in ALL:
         path = os.path.join(HERE, "props", pid.lower() + ".py")
-        if not os.path.exists(path) or pid in extra_na:
+        claimed = json.load(open(os.path.join(VERIF, "claimed.json")))
+        if not os.path.exists(path) or pid in extra_na or pid not in claimed:
             na.append({"property_id": pid, "reason": extra_na.get(pid, "check not built yet (work in progress); no claim is made for this property")})
             continue
         mod = importlib.import_module("props." + pid.lower())
